@@ -84,6 +84,92 @@ pub fn roundtrip_event(cls: &str, pkt: &Value) -> Result<Value, String> {
     Ok(json!({"ev": "RoundTrip", "cls": cls, "pkt": projected, "plain": plain, "comp": comp, "pp": pp, "pc": pc}))
 }
 
+/// the same for a packet that was NOT constructed from an abstract value by the generic constructor but
+/// through one of the crate's convenience constructors: the abstract packet is its own projection
+pub fn roundtrip_of_packet(cls: &str, p: &Packet) -> Value {
+    let projected = project_packet(p);
+    let plain = build_out(p, false);
+    let comp = build_out(p, true);
+    let pp = parse_of(&plain);
+    let pc = parse_of(&comp);
+    json!({"ev": "RoundTrip", "cls": cls, "pkt": projected, "plain": plain, "comp": comp, "pp": pp, "pc": pc})
+}
+
+/// Packets whose records come from the convenience constructors of the crate (every way of making a TXT,
+/// the typed SVCB setters, the simple-mdns record helpers, owned copies), followed by further records so
+/// that a wrong length shows in the framing of what follows.
+pub fn ctor_variant_events(cls: &str) -> Vec<Value> {
+    use simple_dns::rdata::{RData, A, HTTPS, SVCB, TXT};
+    use simple_dns::{CharacterString, Name, ResourceRecord, CLASS};
+    use std::collections::HashMap;
+    use std::convert::TryFrom;
+    let texts: Vec<String> = vec![
+        String::new(), "a".into(), "k=v".into(), "x".repeat(254), "y".repeat(255), "z".repeat(256), "w".repeat(509),
+        "\u{e9}".repeat(127), "\u{e9}".repeat(128), "ab;cd=ef;g".into(), "q".repeat(1000),
+    ];
+    let leaked: Vec<&'static str> = texts.iter().map(|t| &*Box::leak(t.clone().into_boxed_str())).collect();
+    let mut txts: Vec<(String, TXT<'static>)> = vec![];
+    for (i, t) in leaked.iter().enumerate() {
+        // (the empty text gives a TXT without any character-string, which has no wire representation of its own)
+        if !t.is_empty() {
+            if let Ok(x) = TXT::try_from(*t) {
+                txts.push((format!("try_from-str#{i}"), x));
+            }
+        }
+        if t.len() <= 255 {
+            if let Ok(x) = TXT::new().with_string(t) {
+                txts.push((format!("with_string#{i}"), x));
+            }
+            let mut y = TXT::new();
+            if y.add_string(t).is_ok() && y.add_string("second").is_ok() {
+                txts.push((format!("add_string#{i}"), y));
+            }
+            if let Ok(cs) = CharacterString::new(t.as_bytes()) {
+                txts.push((format!("with_char_string#{i}"), TXT::new().with_char_string(cs.clone()).with_char_string(cs)));
+            }
+        }
+    }
+    for (i, m) in [
+        vec![("k", Some("v"))], vec![("flag", None)], vec![("e", Some(""))], vec![("a", Some("1")), ("b", None), ("c", Some(""))],
+        vec![("long", Some(&*Box::leak("v".repeat(249).into_boxed_str())))],
+    ].iter().enumerate() {
+        let map: HashMap<String, Option<String>> = m.iter().map(|(k, v)| (k.to_string(), v.map(|s| s.to_string()))).collect();
+        if let Ok(x) = TXT::try_from(map) {
+            txts.push((format!("try_from-map#{i}"), x));
+        }
+    }
+    let tail = |p: &mut Packet<'static>| {
+        p.answers.push(ResourceRecord::new(Name::new_unchecked("tail.example"), CLASS::IN, 5, RData::A(A { address: 0x01020304 })));
+        p.additional_records.push(ResourceRecord::new(Name::new_unchecked("x.tail.example"), CLASS::CH, 6, RData::A(A { address: 0x05060708 })));
+    };
+    let mut evs = vec![];
+    for (how, txt) in txts {
+        for owned in [false, true] {
+            let mut p = Packet::new_reply(3);
+            let rd = if owned { RData::TXT(txt.clone().into_owned()) } else { RData::TXT(txt.clone()) };
+            p.answers.push(ResourceRecord::new(Name::new_unchecked("t.example"), CLASS::IN, 10, rd));
+            tail(&mut p);
+            evs.push(roundtrip_of_packet(&format!("{cls} ctor TXT {how}{}", if owned { " owned" } else { "" }), &p));
+        }
+    }
+    // typed SVCB setters
+    let mut s = SVCB::new(1, Name::new_unchecked("svc.example"));
+    s.set_port(443);
+    let _ = s.set_alpn([CharacterString::new(b"h2").unwrap(), CharacterString::new(b"h3").unwrap()]);
+    s.set_no_default_alpn();
+    let _ = s.set_ipv4hint([0x0a000001u32, 0x0a000002]);
+    let _ = s.set_ipv6hint([1u128]);
+    let _ = s.set_mandatory([1u16, 3]);
+    for https in [false, true] {
+        let mut p = Packet::new_reply(4);
+        let rd = if https { RData::HTTPS(HTTPS(s.clone())) } else { RData::SVCB(s.clone()) };
+        p.answers.push(ResourceRecord::new(Name::new_unchecked("s.example"), CLASS::IN, 10, rd));
+        tail(&mut p);
+        evs.push(roundtrip_of_packet(&format!("{cls} ctor SVCB setters"), &p));
+    }
+    evs
+}
+
 /// C11: for bytes the parser accepts: re-serialise both ways and parse again
 pub fn reparse_event(cls: &str, b: &[u8]) -> Option<Value> {
     let parsed = guarded(|| Packet::parse(b).ok().map(|p| (project_packet(&p), build_out(&p, false), build_out(&p, true))));
